@@ -72,7 +72,9 @@ theorem noIgnored_clr (m : NNet) (pins : List (Nat × Option Nat)) : NoIgnored m
 /-- **`substitute` with a designated cell, ignored input pins allowed**: the general certificate -/
 theorem substitute_general_some {α : Type _} (z : α) (neg : α → α) (prim : String → α → α → α → α → α) (h m h' : NNet) (c : Nat)
     (w : WFm h) (mw : WF m) (hc : c < h.net.nodes.size) (hio : c ∉ h.net.io) (hcf : (h.net.node c).isFork = false)
-    (sh : Shape) (dn : Nat) (hs : implShape m = some sh) (hd : sh.des = some dn) (hok : implOKB m = true)
+    (sh : Shape) (dn : Nat) (hs : implShape m = some sh) (hd : sh.des = some dn)
+    (k2 : m.net.io.Nodup) (k3 : ∀ p ∈ m.net.io, isSeqKind (m.net.node p).kind = false)
+    (k4 : ∀ p ∈ m.net.io, 0 < (m.net.node p).ins.length → 0 < (m.net.node p).outs.length → (m.net.node p).isFork = true)
     (hself : ∀ ll, GhostLine h c m sh ll → (h.net.line ll).driver ≠ c) (he : substitute h c m = some h') :
     ∃ map R, SubstG z neg prim h c m sh map h' R := by
   unfold substitute at he
@@ -80,7 +82,7 @@ theorem substitute_general_some {α : Type _} (z : α) (neg : α → α) (prim :
   · exact absurd he (by simp)
   · rename_i h5 map dang hcore
     obtain ⟨V, ψ, hcoreV, hnm, lk, hmapLt, hVN⟩ := lockstep_some h c m sh dn w hc hs hd hself h5 map dang hcore
-    obtain ⟨k1, k2, k3, k4⟩ := implOKB_spec m mw sh dn hs hd hok
+    have k1 := implShape_des_notPort m mw sh dn hs hd k3
     obtain ⟨_, _, _, _, hil, _, _, _, _, _⟩ := substituteCore_inv h c m sh hs h5 map dang hcore
     obtain ⟨s1, s2, s3, s4⟩ := hostClr_sizes h c m sh
     have hcl : (hostClr h c m sh).net.node c = { h.net.node c with ins := clrIns m sh (h.net.node c).ins } := by
